@@ -235,7 +235,9 @@ def run(ctx):
     if asan:
         n_sys //= 8
         shrink = 2
-    tmpdir = tempfile.mkdtemp(prefix='vf-c03-')
+    # inside the shadow tree when there is one: removed with it even if this worker is killed
+    sh = os.environ.get('VF_SHADOW')
+    tmpdir = tempfile.mkdtemp(prefix='vf-c03-', dir=sh if sh and os.path.isdir(sh) else None)
     hows = ['NeighborList', 'System.neighborlist', 'nlist']
     forms = ['path', 'content', 'stream']
     try:
